@@ -81,6 +81,116 @@ func verifC11BurstValid(r *rand.Rand) []byte {
 	return b
 }
 
+// verifC11BurstPile: see the call site.
+func verifC11BurstPile(rec *kit.Rec, h *verifC11Lib, regChan chan interface{}, drain func(), fed *atomic.Int64) bool {
+	rm := h.rm
+	r := kit.Rand("c11-burst-pile")
+	// phantoms the liveness stub calls dead and the blocklist allows
+	pick := func(v6 bool, k int) net.IP {
+		for i := 0; ; i++ {
+			var ip net.IP
+			if v6 {
+				ip = net.ParseIP(fmt.Sprintf("2001:48a8:687f:1::%x", 0x100+k*64+i))
+			} else {
+				ip = net.IPv4(192, 122, 190, byte(40+k*20+i)).To4()
+			}
+			if live, _ := (verifC11Live{}).PhantomIsLive(ip.String(), 443); !live && !rm.IsBlocklistedPhantom(ip) {
+				return ip
+			}
+		}
+	}
+	type plan struct {
+		name string
+		n    int
+		v6   bool
+		mod  func(w *pb.C2SWrapper, i int)
+	}
+	sizes := []int{1100, 2100}
+	if kit.Thorough() {
+		sizes = append(sizes, 5000, 20000)
+	}
+	var plans []plan
+	for k, n := range sizes {
+		plans = append(plans, plan{fmt.Sprintf("%d distinct registrations on one v4 phantom", n), n, false, nil})
+		if k < 2 || n == 5000 {
+			plans = append(plans, plan{fmt.Sprintf("%d distinct registrations on one v6 phantom", n), n, true, nil})
+		}
+	}
+	plans = append(plans,
+		plan{"2100 on one (phantom, port), all three wrapping transports", 2100, false, func(w *pb.C2SWrapper, i int) {
+			tt := []pb.TransportType{pb.TransportType_Min, pb.TransportType_Obfs4, pb.TransportType_Prefix}[i%3]
+			w.RegistrationPayload.Transport = tt.Enum()
+			if tt == pb.TransportType_Prefix {
+				w.RegistrationPayload.TransportParams, _ = anypb.New(&pb.PrefixTransportParams{PrefixId: proto.Int32(int32(i % 10)), RandomizeDstPort: proto.Bool(false)})
+			}
+		}},
+		plan{"2100 from one registrant with one covert, phantoms not pinned", 2100, false, func(w *pb.C2SWrapper, i int) { w.RegistrationResponse = nil }},
+	)
+	for k, pl := range plans {
+		ip := pick(pl.v6, k)
+		rec.Case(map[string]interface{}{"stage": "burst", "phase": "pile-up: " + pl.name, "phantom": ip.String()})
+		for i := 0; i < pl.n; i++ {
+			c := &pb.ClientToStation{Transport: pb.TransportType_Min.Enum(), ClientLibVersion: proto.Uint32(4), DecoyListGeneration: proto.Uint32(957),
+				V4Support: proto.Bool(!pl.v6), V6Support: proto.Bool(pl.v6), CovertAddress: proto.String("192.0.2.99:443")}
+			src := pb.RegistrationSource_BidirectionalAPI
+			w := &pb.C2SWrapper{SharedSecret: make([]byte, 32), RegistrationPayload: c, RegistrationSource: &src, RegistrationAddress: []byte{203, 0, 113, 50},
+				RegistrationResponse: &pb.RegistrationResponse{DstPort: proto.Uint32(443)}}
+			r.Read(w.SharedSecret)
+			if pl.v6 {
+				w.RegistrationResponse.Ipv6Addr = []byte(ip.To16())
+			} else {
+				w.RegistrationResponse.Ipv4Addr = proto.Uint32(uint32(ip[0])<<24 | uint32(ip[1])<<16 | uint32(ip[2])<<8 | uint32(ip[3]))
+			}
+			if pl.mod != nil {
+				pl.mod(w, i)
+			}
+			b, _ := proto.Marshal(w)
+			regChan <- b
+			if i%24 == 23 { // paced below the pool's buffer of 30, so that it drops next to nothing
+				for len(regChan) > 0 {
+					time.Sleep(100 * time.Microsecond)
+				}
+				time.Sleep(1500 * time.Microsecond)
+			}
+		}
+		fed.Add(int64(pl.n))
+		rec.Count("evaluations", pl.n)
+		rec.Count("pile_up_messages", pl.n)
+		rec.Distinct("nontrivial", "pile-up", pl.name)
+		drain()
+		// a lookup on the loaded phantom must return
+		done := make(chan struct{ count, valid int }, 1)
+		go verifC11BurstLookup(rm, ip, done)
+		select {
+		case x := <-done:
+			rec.Count("pile_up_lookups_returned", 1)
+			rec.Count("registrations_counted_on_loaded_phantoms", x.count)
+			rec.Sample(map[string]interface{}{"entry": "burst/pile-up", "plan": pl.name, "phantom": ip.String(), "registrations_tracked_on_it": x.count, "valid": x.valid})
+		case <-time.After(20 * time.Second):
+			blocked, found, state, stack := kit.C11LoopBlocked("lib.verifC11BurstLookup", "")
+			d := map[string]interface{}{"plan": pl.name, "phantom": ip.String(), "lookup_goroutine_found": found, "state": state, "stack": stack,
+				"ingest_workers_alive": len(kit.InFunc(kit.Stacks(), "lib.(*RegistrationManager).startIngestThread"))}
+			if found && blocked {
+				rec.Violation("hang:station-registry:lookup-blocked", "after "+pl.name+" a lookup on that phantom (CountRegistrations / GetRegistrations, what every new connection does) did not return within 20 s and sits parked in ["+state+"] on three scans: the registry lock is held for ever", d)
+			} else {
+				rec.Inconclusive("a lookup on the loaded phantom did not return within 20 s but is not stably parked", d)
+			}
+			return false
+		}
+		if !verifC11BurstControl(rec, h, regChan, "after "+pl.name) {
+			return false
+		}
+	}
+	return true
+}
+
+// verifC11BurstLookup is what the connection handler does first for a new connection to the phantom.
+func verifC11BurstLookup(rm *RegistrationManager, ip net.IP, done chan<- struct{ count, valid int }) {
+	n := rm.CountRegistrations(ip)
+	v := len(rm.GetRegistrations(ip))
+	done <- struct{ count, valid int }{n, v}
+}
+
 var verifC11BurstControls atomic.Int64
 
 // verifC11BurstControl writes a fresh admissible registration (min transport, API source, a phantom the
@@ -164,6 +274,7 @@ func TestVerifC11Burst(t *testing.T) {
 	rounds := kit.Tier(30, 400) // bursts per producer and worker count
 	const producers, burst = 4, 96 // 4 x 96 at once: about what 300 workers + their buffer of 30 can take
 	var fed, keysCreated, resets, lookups atomic.Int64
+	var pauseSweep atomic.Bool
 
 	sampleKeys := func() {
 		s := rm.RegistrationStats
@@ -218,6 +329,9 @@ func TestVerifC11Burst(t *testing.T) {
 				case <-stop:
 					return
 				case <-time.After(300 * time.Millisecond):
+					if pauseSweep.Load() {
+						continue // the pile-up phases model seconds of traffic; the station sweeps every 3 minutes
+					}
 					rm.VerifBackdate(7 * time.Hour)
 					rm.RemoveOldRegistrations()
 					h.pubs.Add(int64(h.redis.Len()))
@@ -316,6 +430,15 @@ func TestVerifC11Burst(t *testing.T) {
 					break
 				}
 			}
+		}
+		// … and after state-dependent volume: far more DISTINCT admissible registrations than any plausible
+		// cap piled onto ONE phantom (pinned through the registrar-response override), one (phantom, port),
+		// one registrant, one covert.  Then a lookup on the loaded phantom must return and the control on
+		// another phantom must still become valid.
+		if alive && workers == 0 {
+			pauseSweep.Store(true)
+			alive = verifC11BurstPile(rec, h, regChan, drain, &fed)
+			pauseSweep.Store(false)
 		}
 		if !alive {
 			// the pipeline is stalled (reported above): its goroutines, the stats printer and the sweeper may be
